@@ -16,7 +16,7 @@ PROP = dict(
         level_note=("trusts the reference codec in harness/c01_refcodec.h (written from the COBS / COBS/R definitions and the "
                     "library's documented ZPE constants; cross-checked on every case: reference decode of the real frame == message), "
                     "gcc ASan+UBSan; python3 for the client leg"),
-        legs=[dict(name="c01_codec", src=["c01_codec.c"], libs=["mptcore"], batch=256, timeout=40,
+        legs=[dict(name="c01_codec", memcheck=1500, src=["c01_codec.c"], libs=["mptcore"], batch=256, timeout=40,
                    floors={"mpt_encode_cobs": 200000, "mpt_encode_cobs_r": 200000, "mpt_encode_cobs_zpe": 200000,
                            "mpt_encode_cobs_zpe_r": 200000, "mpt_encode_string": 200000, "mpt_array_push": 500000,
                            "frames:cobs": 8000, "frames:cobs_r": 8000, "frames:cobs_zpe": 8000, "frames:cobs_zpe_r": 8000,
